@@ -56,6 +56,19 @@ def replay(rec: Dict[str, Any]) -> List[Tuple[str, Dict[str, Any], str]]:
                     vals2 = jsonpath.findall(text, doc)
                     if len(vals) != len(ms) or any(a is not m.obj for a, m in zip(vals, ms)) or len(vals2) != len(ms) or any(a is not m.obj for a, m in zip(vals2, ms)):
                         disc = "findall-differs-from-finditer"
+                    elif d == 10 or d == 7:
+                        # one environment object, the same text before and after its options are changed: what the text means is what
+                        # the options say at the time of the call
+                        env = jsonpath.JSONPathEnvironment()
+                        env.unicode_escape = False
+                        try:
+                            env.findall(text, doc)
+                        except Exception:  # noqa: BLE001
+                            pass
+                        env.unicode_escape = True
+                        vals3 = env.findall(text, doc)
+                        if len(vals3) != len(ms) or any(a is not m.obj for a, m in zip(vals3, ms)):
+                            disc = "environment-remembers-the-text-from-before-its-options-changed"
             except BaseException as e:  # noqa: BLE001
                 disc = f"evaluate-raised-{exc_family(e)}"
                 obs_parts = []
